@@ -37,8 +37,9 @@ def bounds(tier):
     # 'narrow' (selections of <= 1 fact, cut and introduction only) one or two steps deeper
     return tier_param(tier, {'depth': {'wide': 3, 'narrow': 4}, 'state_cap_per_goal': {'wide': 2500, 'narrow': 4000},
                              'library_items': 'logic_base, logic (every prefix of the recorded steps)'},
-                      {'depth': {'wide': 4, 'narrow': 5}, 'state_cap_per_goal': {'wide': 4000, 'narrow': 5000},
-                       'library_items': 'logic_base, logic, set, function'})
+                      # (one more level of depth did not finish within 30 minutes: thorough = same depths, larger caps, more library)
+                      {'depth': {'wide': 3, 'narrow': 4}, 'state_cap_per_goal': {'wide': 5000, 'narrow': 8000},
+                       'library_items': 'logic_base, logic, set'})
 
 
 class Harness:
@@ -442,7 +443,7 @@ def explore_goal(h, goal, tier, agg, prop_id, profile='wide'):
 def library_items(tier):
     import os
     from mc.engine import REPO
-    names = ['logic_base', 'logic'] if tier == 'quick' else ['logic_base', 'logic', 'set', 'function']
+    names = ['logic_base', 'logic'] if tier == 'quick' else ['logic_base', 'logic', 'set']
     out = []
     for nm in names:
         data = json.load(open(os.path.join(REPO, 'library', nm + '.json'), encoding='utf-8'))
@@ -475,6 +476,12 @@ def explore_library_item(h, nm, it, agg, prop_id):
         case = ['lib', nm, it['name'], k]
         agg.transitions += 1
         if h.mode == 'C14':
+            # a suggestion can only be judged in a state that is itself checkable (C13 reports the prefix that is not)
+            try:
+                copy.copy(state).check_proof()
+            except Exception:
+                agg.add(case, Outcome('lib-prefix-not-checkable'))
+                return
             # every suggestion for the selection of the recorded step
             try:
                 res = state.search_method(step['goal_id'], step.get('fact_ids', []))
